@@ -219,6 +219,13 @@ def main():
                     m = re.match(r"(C\d\d) exit=", line)
                     if m:
                         per[m.group(1)] = line
+        # final regression pass with the committed machinery (own check + previous catchers)
+        fin = f"/tmp/seedres/FINAL3/{name}.txt"
+        if os.path.exists(fin):
+            for line in open(fin).read().splitlines():
+                m = re.match(r"(C\d\d) exit=", line)
+                if m:
+                    per[m.group(1)] = line
         txt = "\n".join(per[k] for k in sorted(per))
         def after(label, t):
             m = re.search(re.escape(label) + r"\n(test result: [^\n]*)", t)
